@@ -132,6 +132,11 @@ def proj_inst(rng, iid):
         if rng.random() < 0.6:
             up["regression.momentum_extra_steps"] = True
         inst["user_params"] = up
+    if rng.random() < 0.2:
+        # hard restarts that re-evaluate their start point, together with options that store points un-projected (momentum steps)
+        inst.update(restarts="hardnew", maxunsucc=3, rhoend_scale=1.0)
+        inst.pop("incnpt", None)
+        inst["user_params"] = {"regression.num_extra_steps": 1, "regression.momentum_extra_steps": True}
     inst["rhoend"] = float(_pick(rng, [1e-2, 1e-4]))
     inst["maxfun"] = int(_pick(rng, [15, 40, 80]))
     inst["timeout"] = 120.0
